@@ -43,14 +43,48 @@ structure IoW where
   pevents : Nat := 0
 deriving DecidableEq, Repr, Inhabited
 
+/-- flags of all handles in `handle_queue` order + `loop->active_handles`: the only state the
+    four macros of uv-common.h touch.  Written exclusively through `Core.apply`/`add`/`remove`. -/
+structure Core where
+  fl : List (Nat × HFlags) := []
+  ah : Int := 0
+deriving Repr, Inhabited
+
+def updF (fl : List (Nat × HFlags)) (id : Nat) (f : HFlags) : List (Nat × HFlags) :=
+  match fl with
+  | [] => []
+  | e :: t => if e.1 == id then (id, f) :: t else e :: updF t id f
+
+def lookF : List (Nat × HFlags) → Nat → Option HFlags
+  | [], _ => none
+  | e :: t, id => if e.1 == id then some e.2 else lookF t id
+
+def Core.get (c : Core) (id : Nat) : Option HFlags := lookF c.fl id
+
+/-- apply a macro kernel to handle `id` and the loop counter -/
+def Core.apply (c : Core) (id : Nat) (k : HK → HK) : Core :=
+  match c.get id with
+  | none => c
+  | some f =>
+    let r := k (toHK f c.ah)
+    { fl := updF c.fl id (ofHK r), ah := r.ah }
+
+/-- uv__handle_init: append to handle_queue with flags = REF -/
+def Core.add (c : Core) (id : Nat) : Core := { c with fl := c.fl ++ [(id, ofHK (handleInit c.ah))] }
+def eraseF (fl : List (Nat × HFlags)) (id : Nat) : List (Nat × HFlags) :=
+  match fl with
+  | [] => []
+  | e :: t => if e.1 == id then t else e :: eraseF t id
+
+/-- uv__queue_remove(&handle->handle_queue): unlink that one handle -/
+def Core.remove (c : Core) (id : Nat) : Core := { c with fl := eraseF c.fl id }
+
 structure Handle where
   id : Nat
   kind : Kind
-  f : HFlags := {}
   ncb : Nat := 0                 -- invocations of the handle's callback so far (script index)
   pending : Bool := false        -- uv_async_t.pending
   io : IoW := {}                 -- io_watcher (poll, tcp, udp, pipe)
-  sigOn : Bool := false          -- uv_signal_t.signum != 0
   wq : List Nat := []            -- udp write_queue (request ids)
   wcq : List (Nat × Int) := []   -- udp write_completed_queue (request, status)
   sqc : Int := 0                 -- udp send_queue_count
@@ -68,7 +102,7 @@ deriving DecidableEq, Repr, Inhabited
 inductive W | async | signal | inotify | h (id : Nat)
 deriving DecidableEq, Repr, Inhabited
 
-inductive Owner | async | h (id : Nat) | signal | other
+inductive Owner | async | h (id : Nat) | inotify | signal | other
 deriving DecidableEq, Repr, Inhabited
 
 def POLLIN : Nat := 1
@@ -148,9 +182,9 @@ inductive Event
 deriving Repr, Inhabited
 
 structure State where
-  handles : List Handle := []
+  c : Core := {}                      -- handle flags (handle_queue order) and loop->active_handles
+  handles : List Handle := []         -- per-handle data other than the flags
   nextId : Nat := 0
-  ah : Int := 0                       -- loop->active_handles
   ar : Int := 0                       -- loop->active_reqs.count
   reqs : List Req := []               -- requests whose callback is owed
   nextReq : Nat := 0
@@ -200,17 +234,20 @@ def updH (hs : List Handle) (id : Nat) (g : Handle → Handle) : List Handle :=
 def modH (s : State) (id : Nat) (g : Handle → Handle) : State :=
   { s with handles := updH s.handles id g }
 
+def getF (s : State) (id : Nat) : Option HFlags := s.c.get id
+
+/-- the record and the flags of a live handle -/
+def getHF (s : State) (id : Nat) : Option (Handle × HFlags) :=
+  match getH s id, getF s id with
+  | some h, some f => some (h, f)
+  | _, _ => none
+
 /-- apply a macro kernel to handle `id` and the loop counter -/
-def withKernel (s : State) (id : Nat) (k : HK → HK) : State :=
-  match getH s id with
-  | none => s
-  | some h =>
-    let r := k (toHK h.f s.ah)
-    { s with handles := updH s.handles id (fun h => { h with f := ofHK r }), ah := r.ah }
+def withKernel (s : State) (id : Nat) (k : HK → HK) : State := { s with c := s.c.apply id k }
 
 def illegal (s : State) : State × Ret := ({ s with nIllegal := s.nIllegal + 1 }, none)
 
-def hClosing (h : Handle) : Bool := isClosing (toHK h.f 0)
+def hClosing (f : HFlags) : Bool := isClosing (toHK f 0)
 
 /-! ### time -/
 /-- uv__update_time: loop->time = clock (ms) -/
@@ -282,6 +319,8 @@ def timerStop (s : State) (id : Nat) : State :=
 
 /-- uv_timer_start -/
 def timerStart (s : State) (id a b : Nat) : State × Int :=
+  -- `if (uv__is_closing(handle) || cb == NULL) return UV_EINVAL;`
+  if ((getF s id).map hClosing).getD true then (s, -22) else
   let (tm, rc) := Timer.start s.tm id a b
   if rc != 0 then (s, rc)
   else
@@ -308,13 +347,13 @@ def setWList (s : State) (k : WKind) (l : List Nat) : State :=
   | .idle => { s with idle := l } | .prepare => { s with prepare := l } | .check => { s with check := l }
 
 /-- uv_idle_start etc. (loop-watcher.c:42-50): insert at the HEAD of the loop list -/
-def watcherStart (s : State) (k : WKind) (id : Nat) (active : Bool) : State :=
-  if active then s
+def watcherStart (s : State) (k : WKind) (id : Nat) : State :=
+  if ((getF s id).map (·.active)).getD true then s
   else hStart (setWList s k (id :: wList s k)) id
 
 /-- uv_idle_stop etc. (loop-watcher.c:52-57): unlink from whichever list holds it -/
-def watcherStop (s : State) (k : WKind) (id : Nat) (active : Bool) : State :=
-  if !active then s
+def watcherStop (s : State) (k : WKind) (id : Nat) : State :=
+  if !((getF s id).map (·.active)).getD false then s
   else
     let s := setWList s k ((wList s k).filter (· != id))
     hStop { s with watcherLocal := s.watcherLocal.filter (· != id) } id
@@ -379,22 +418,26 @@ def udpSendmsg (s : State) (id : Nat) : State :=
       let s := modH s id (fun h => { h with wcq := h.wcq ++ h.wq.map (fun r => (r, (1 : Int))), wq := [] })
       ioFeed s id
 
+/-- uv__udp_send, first half (udp.c:589-611): uv__req_init, queue the request -/
+def udpSendEnqueue (s : State) (id : Nat) : State :=
+  let r := s.nextReq
+  let s := { s with ar := reqRegister s.ar, reqs := s.reqs ++ [({ id := r, kind := .udpSend id } : Req)], nextReq := r + 1 }
+  modH s id (fun h => { h with io := { h.io with hasFd := true }, sqc := h.sqc + 1, wq := h.wq ++ [r] })
+
+/-- uv__udp_send, last part (udp.c:614-626): send now or arm POLLOUT -/
+def udpSendKick (s : State) (id : Nat) (emptyQueue processing : Bool) : State :=
+  if emptyQueue && !processing then
+    let s := udpSendmsg s id
+    match getH s id with
+    | none => s
+    | some h' => if !h'.wq.isEmpty then ioStart s (.h id) POLLOUT else s
+  else ioStart s (.h id) POLLOUT
+
 /-- uv__udp_send (udp.c:560-628) -/
 def udpSend (s : State) (id : Nat) : State :=
   match getH s id with
   | none => s
-  | some h =>
-    let emptyQueue := h.sqc == 0
-    let r := s.nextReq
-    let s := { s with ar := reqRegister s.ar, reqs := s.reqs ++ [({ id := r, kind := .udpSend id } : Req)], nextReq := r + 1 }
-    let s := modH s id (fun h => { h with io := { h.io with hasFd := true }, sqc := h.sqc + 1, wq := h.wq ++ [r] })
-    let s := hStart s id
-    if emptyQueue && !h.processing then
-      let s := udpSendmsg s id
-      match getH s id with
-      | none => s
-      | some h' => if !h'.wq.isEmpty then ioStart s (.h id) POLLOUT else s
-    else ioStart s (.h id) POLLOUT
+  | some h => udpSendKick (hStart (udpSendEnqueue s id) id) id (h.sqc == 0) h.processing
 
 /-- uv__udp_close (udp.c:56-64) -/
 def udpClose (s : State) (id : Nat) : State :=
@@ -402,11 +445,14 @@ def udpClose (s : State) (id : Nat) : State :=
   let s := hStop s id
   modH s id (fun h => { h with io := { h.io with hasFd := false } })
 
-/-- uv__signal_start on a fixed signum / uv__signal_stop (signal.c:363-432, 535-578) -/
-def signalStart (s : State) (id : Nat) (h : Handle) : State :=
-  if h.sigOn then s else hStart (modH s id (fun h => { h with sigOn := true })) id
-def signalStop (s : State) (id : Nat) (h : Handle) : State :=
-  if !h.sigOn then s else hStop (modH s id (fun h => { h with sigOn := false })) id
+/-- uv__signal_start on a fixed signum / uv__signal_stop (signal.c:363-432, 535-578).
+    `handle->signum != 0` coincides with UV_HANDLE_ACTIVE (set and cleared together, nowhere else),
+    so the early returns `signum == handle->signum` / `signum == 0` are the kernels' own ACTIVE tests. -/
+def signalStart (s : State) (id : Nat) : State := hStart s id
+def signalStop (s : State) (id : Nat) : State := hStop s id
+/-- uv_fs_event_stop (linux.c:2700-2720): `if (!uv__is_active(handle)) return 0;` then uv__handle_stop -/
+def fsEventStop (s : State) (id : Nat) : State :=
+  if !((getF s id).map (·.active)).getD false then s else hStop s id
 
 /-- init_inotify (linux.c:2455-2476) -/
 def initInotify (s : State) : State :=
@@ -417,31 +463,30 @@ def initInotify (s : State) : State :=
 def makeClosePending (s : State) (id : Nat) : State := { s with closing := id :: s.closing }
 
 /-- the type-specific teardown of uv_close (core.c:165-235) -/
-def closeKind (s : State) (h : Handle) : State :=
-  match h.kind with
-  | .timer => timerStop { s with tm := Timer.close s.tm h.id } h.id   -- uv__timer_close = uv_timer_stop
-  | .idle => watcherStop s .idle h.id h.f.active
-  | .prepare => watcherStop s .prepare h.id h.f.active
-  | .check => watcherStop s .check h.id h.f.active
-  | .async => asyncClose s h.id
-  | .poll => pollStop s h.id
-  | .tcp => streamClose s h.id
-  | .pipe => streamClose s h.id
-  | .udp => udpClose s h.id
-  | .signal => signalStop s h.id h
-  | .fsEvent => if h.f.active then hStop s h.id else s
+def closeKind (s : State) (k : Kind) (id : Nat) : State :=
+  match k with
+  | .timer => timerStop { s with tm := Timer.close s.tm id } id   -- uv__timer_close = uv_timer_stop
+  | .idle => watcherStop s .idle id
+  | .prepare => watcherStop s .prepare id
+  | .check => watcherStop s .check id
+  | .async => asyncClose s id
+  | .poll => pollStop s id
+  | .tcp => streamClose s id
+  | .pipe => streamClose s id
+  | .udp => udpClose s id
+  | .signal => signalStop s id
+  | .fsEvent => fsEventStop s id
 
 /-- uv_close (core.c:159-238) -/
-def closeH (s : State) (h : Handle) : State :=
-  let s := withKernel s h.id setClosing
-  let s := closeKind s h
-  makeClosePending s h.id
+def closeH (s : State) (k : Kind) (id : Nat) : State :=
+  let s := withKernel s id setClosing
+  let s := closeKind s k id
+  makeClosePending s id
 
 /-! ### handle creation -/
 def addHandle (s : State) (k : Kind) : State :=
   let id := s.nextId
-  let f := ofHK (handleInit s.ah)
-  { s with handles := s.handles ++ [{ id := id, kind := k, f := f }], nextId := id + 1 }
+  { s with c := s.c.add id, handles := s.handles ++ [{ id := id, kind := k }], nextId := id + 1 }
 
 /-- uv_<kind>_init -/
 def initH (s : State) (k : Kind) : State :=
@@ -499,17 +544,17 @@ def pendingEmpty (s : State) : Bool := s.pending.isEmpty
 def closingNull (s : State) : Bool := s.closing.isEmpty
 
 /-- uv_loop_alive -/
-def alive (s : State) : Bool := loopAlive s.ah s.ar (pendingEmpty s) (closingNull s)
+def alive (s : State) : Bool := loopAlive s.c.ah s.ar (pendingEmpty s) (closingNull s)
 
 /-- uv__backend_timeout; UV_LOOP_REAP_CHILDREN is never set (no processes) -/
 def backendTimeoutS (s : State) : Int :=
-  backendTimeout s.stop s.ah s.ar (pendingEmpty s) s.idle.isEmpty false (closingNull s) (Timer.nextTimeout s.tm)
+  backendTimeout s.stop s.c.ah s.ar (pendingEmpty s) s.idle.isEmpty false (closingNull s) (Timer.nextTimeout s.tm)
 
 def obsOf (s : State) : Obs :=
-  { alive := alive s, ah := s.ah, ar := s.ar, stop := s.stop,
-    nh := (s.handles.filter (fun h => !h.f.internal)).length, now := s.tm.time,
-    hs := (s.handles.filter (fun h => !h.f.internal)).map
-            (fun h => (h.id, isActive (toHK h.f 0), hasRef (toHK h.f 0), isClosing (toHK h.f 0))) }
+  { alive := alive s, ah := s.c.ah, ar := s.ar, stop := s.stop,
+    nh := (s.c.fl.filter (fun e => !e.2.internal)).length, now := s.tm.time,
+    hs := (s.c.fl.filter (fun e => !e.2.internal)).map
+            (fun e => (e.1, isActive (toHK e.2 0), hasRef (toHK e.2 0), isClosing (toHK e.2 0))) }
 
 def emit (s : State) (e : Event) : State :=
   if s.halted then s else { s with trace := e :: s.trace }
@@ -523,73 +568,73 @@ def applyOp (s : State) (o : Op) : State × Ret :=
   match o with
   | .init k => ok (initH s k)
   | .start id a b =>
-    match getH s id with
+    match getHF s id with
     | none => illegal s
-    | some h =>
-      if h.f.internal then illegal s else
+    | some (h, f) =>
+      if f.internal then illegal s else
       match h.kind with
       | .timer => let (s, rc) := timerStart s id a b; ok s rc
-      | .poll => if hClosing h || a > 15 then illegal s else ok (pollStart s id a)
-      | .idle => if hClosing h then illegal s else ok (watcherStart s .idle id h.f.active)
-      | .prepare => if hClosing h then illegal s else ok (watcherStart s .prepare id h.f.active)
-      | .check => if hClosing h then illegal s else ok (watcherStart s .check id h.f.active)
-      | .signal => if hClosing h then illegal s else ok (signalStart s id h)
+      | .poll => if hClosing f || a > 15 then illegal s else ok (pollStart s id a)
+      | .idle => if hClosing f then illegal s else ok (watcherStart s .idle id)
+      | .prepare => if hClosing f then illegal s else ok (watcherStart s .prepare id)
+      | .check => if hClosing f then illegal s else ok (watcherStart s .check id)
+      | .signal => if hClosing f then illegal s else ok (signalStart s id)
       | .fsEvent =>
-        if hClosing h then illegal s
-        else if h.f.active then ok s (-22) else ok (hStart (initInotify s) id)
-      | .udp => if hClosing h then illegal s else let (s, rc) := udpRecvStart s id; ok s rc
-      | .tcp => if hClosing h then illegal s else ok (streamListen s id)
-      | .pipe => if hClosing h then illegal s else ok (streamListen s id)
+        if hClosing f then illegal s
+        else if f.active then ok s (-22) else ok (hStart (initInotify s) id)
+      | .udp => if hClosing f then illegal s else let (s, rc) := udpRecvStart s id; ok s rc
+      | .tcp => if hClosing f then illegal s else ok (streamListen s id)
+      | .pipe => if hClosing f then illegal s else ok (streamListen s id)
       | .async => illegal s
   | .stop id =>
-    match getH s id with
+    match getHF s id with
     | none => illegal s
-    | some h =>
-      if h.f.internal || hClosing h then illegal s else
+    | some (h, f) =>
+      if f.internal || hClosing f then illegal s else
       match h.kind with
       | .timer => ok (timerStop s id)
-      | .idle => ok (watcherStop s .idle id h.f.active)
-      | .prepare => ok (watcherStop s .prepare id h.f.active)
-      | .check => ok (watcherStop s .check id h.f.active)
+      | .idle => ok (watcherStop s .idle id)
+      | .prepare => ok (watcherStop s .prepare id)
+      | .check => ok (watcherStop s .check id)
       | .poll => ok (pollStop s id)
-      | .signal => ok (signalStop s id h)
-      | .fsEvent => ok (if h.f.active then hStop s id else s)
+      | .signal => ok (signalStop s id)
+      | .fsEvent => ok (fsEventStop s id)
       | .udp => ok (udpRecvStop s id)
       | _ => illegal s
   | .again id =>
-    match getH s id with
-    | some h => if h.kind == .timer && !h.f.internal then let (s, rc) := timerAgain s id; ok s rc else illegal s
+    match getHF s id with
+    | some (h, f) => if h.kind == .timer && !f.internal then let (s, rc) := timerAgain s id; ok s rc else illegal s
     | none => illegal s
   | .setRepeat id v =>
-    match getH s id with
-    | some h => if h.kind == .timer && !h.f.internal && !hClosing h then ok { s with tm := Timer.setRepeat s.tm id v } else illegal s
+    match getHF s id with
+    | some (h, f) => if h.kind == .timer && !f.internal && !hClosing f then ok { s with tm := Timer.setRepeat s.tm id v } else illegal s
     | none => illegal s
   | .ref id =>
-    match getH s id with
-    | some h => if h.f.internal then illegal s else ok (withKernel s id handleRef)
+    match getHF s id with
+    | some (_, f) => if f.internal then illegal s else ok (withKernel s id handleRef)
     | none => illegal s
   | .unref id =>
-    match getH s id with
-    | some h => if h.f.internal then illegal s else ok (withKernel s id handleUnref)
+    match getHF s id with
+    | some (_, f) => if f.internal then illegal s else ok (withKernel s id handleUnref)
     | none => illegal s
   | .close id =>
-    match getH s id with
-    | some h => if h.f.internal || hClosing h then illegal s else ok (closeH s h)
+    match getHF s id with
+    | some (h, f) => if f.internal || hClosing f then illegal s else ok (closeH s h.kind id)
     | none => illegal s
   | .asyncSend id =>
-    match getH s id with
-    | some h => if h.kind == .async && !h.f.internal && !hClosing h then ok (asyncSend s id) else illegal s
+    match getHF s id with
+    | some (h, f) => if h.kind == .async && !f.internal && !hClosing f then ok (asyncSend s id) else illegal s
     | none => illegal s
   | .bind id =>
-    match getH s id with
-    | some h =>
-      if h.kind == .udp && !hClosing h && !h.io.hasFd then
+    match getHF s id with
+    | some (h, f) =>
+      if h.kind == .udp && !hClosing f && !h.io.hasFd then
         ok (modH s id (fun h => { h with io := { h.io with hasFd := true } }))
       else illegal s
     | none => illegal s
   | .udpSend id =>
-    match getH s id with
-    | some h => if h.kind == .udp && !hClosing h then ok (udpSend s id) else illegal s
+    match getHF s id with
+    | some (h, f) => if h.kind == .udp && !hClosing f then ok (udpSend s id) else illegal s
     | none => illegal s
   | .work => ok (workSubmit s)
   | .cancel r =>
@@ -601,24 +646,24 @@ def applyOp (s : State) (o : Op) : State × Ret :=
   | .getBackendTimeout => ok s (uvBackendTimeout s.watcherQ.isEmpty (backendTimeoutS s))
   | .getNow => ok s s.tm.time
   | .isActive id =>
-    match getH s id with
-    | some h => if h.f.internal then illegal s else ok s (if isActive (toHK h.f 0) then 1 else 0)
+    match getHF s id with
+    | some (_, f) => if f.internal then illegal s else ok s (if isActive (toHK f 0) then 1 else 0)
     | none => illegal s
   | .hasRef id =>
-    match getH s id with
-    | some h => if h.f.internal then illegal s else ok s (if hasRef (toHK h.f 0) then 1 else 0)
+    match getHF s id with
+    | some (_, f) => if f.internal then illegal s else ok s (if hasRef (toHK f 0) then 1 else 0)
     | none => illegal s
   | .isClosing id =>
-    match getH s id with
-    | some h => if h.f.internal then illegal s else ok s (if isClosing (toHK h.f 0) then 1 else 0)
+    match getHF s id with
+    | some (_, f) => if f.internal then illegal s else ok s (if isClosing (toHK f 0) then 1 else 0)
     | none => illegal s
   | .dueIn id =>
-    match getH s id with
-    | some h => if h.kind == .timer && !h.f.internal then ok s (Timer.dueIn s.tm id) else illegal s
+    match getHF s id with
+    | some (h, f) => if h.kind == .timer && !f.internal then ok s (Timer.dueIn s.tm id) else illegal s
     | none => illegal s
   | .env _ id =>
-    match getH s id with
-    | some h => if h.kind == .poll then ok s else illegal s
+    match getHF s id with
+    | some (h, _) => if h.kind == .poll then ok s else illegal s
     | none => illegal s
   | .bad _ => illegal s
 
@@ -629,7 +674,7 @@ def stepOp (s : State) (o : Op) : State :=
 
 /-- uv_loop_close (uv-common.c:873-905): UV_EBUSY = -16 -/
 def loopCloseBusy (s : State) : Bool :=
-  hasActiveReqs s.ar || s.handles.any (fun h => !h.f.internal)
+  hasActiveReqs s.ar || s.c.fl.any (fun e => !e.2.internal)
 
 def loopClose (s : State) : State × Int :=
   if loopCloseBusy s then (s, -16) else ({ s with closed := true }, 0)
